@@ -216,6 +216,36 @@ func (t *FnTrans) goStmt(x *ssa.Go) {
 	if ct := t.eng.specs.Funcs[strings.TrimPrefix(key, "go:")]; ct != nil && ct.Opts["thread"] != "" {
 		return // verified separately as a thread entry that touches only monitor-protected state
 	}
+	// go func(){...}() with a closure under an `opt thread` contract: the closure is verified separately as a
+	// thread entry (no locks held, monitor-protected state only); what it requires of the captured values and
+	// arguments is an obligation here, at the spawn
+	if fv := t.val(x.Call.Value); fv.Fn != nil {
+		if ct := t.eng.specs.Funcs[fnKey(fv.Fn)]; ct != nil && ct.Opts["thread"] != "" {
+			env := &Env{t: t, vars: map[string]SVal{}, st: t.cur, pkg: t.fn.Pkg.Pkg, selfAlloc0: t.get("$alloc")}
+			for i, v := range fv.Fn.FreeVars {
+				if i < len(fv.Bnd) {
+					T := t.resolve(v.Type())
+					env.vars[v.Name()] = SVal{S: t.termOfOpt(fv.Bnd[i]), T: T, Sort: t.sortOf(T), Tgt: fv.Bnd[i].P}
+				}
+			}
+			for i, p := range fv.Fn.Params {
+				if i < len(x.Call.Args) {
+					T := t.resolve(p.Type())
+					env.vars[p.Name()] = SVal{S: t.term(x.Call.Args[i]), T: T, Sort: t.sortOf(T)}
+				}
+			}
+			n := t.count("go:" + fnKey(fv.Fn))
+			for i, r := range ct.Requires {
+				// lock-state requirements describe the new thread (it holds nothing), not the spawner
+				if strings.Contains(r.Text, "unlocked(") || strings.Contains(r.Text, "held(") {
+					continue
+				}
+				t.obligeNamed(fmt.Sprintf("pre.go.%d.%d", n, i+1), "pre", env.evalBool(r.E), "thread entry requires: "+r.Text)
+			}
+			ct.Used = true
+			return
+		}
+	}
 	t.havocCall(key, &x.Call, nil)
 }
 
@@ -267,6 +297,17 @@ func (t *FnTrans) ghostUpdate(g *Clause, env *Env) {
 		}
 		env.st = t.cur
 		t.oblige("gassert", env.evalBool(e), g.Text)
+		return
+	}
+	if strings.HasPrefix(g.Text, "assume ") {
+		// an unchecked assumption at a program point (reported in evidence)
+		e, err := ParseExpr(strings.TrimSpace(g.Text[len("assume "):]))
+		if err != nil {
+			t.fail("%s:%d: %v", g.File, g.Line, err)
+		}
+		env.st = t.cur
+		t.assume(env.evalBool(e))
+		t.abstr[fmt.Sprintf("assumed (unchecked) %s: %s", g.Arg, strings.TrimSpace(g.Text[len("assume "):]))] = true
 		return
 	}
 	i := strings.Index(g.Text, "=")
@@ -435,9 +476,36 @@ func (t *FnTrans) allocCheck(x *ssa.MakeSlice, ln string) {
 
 func (t *FnTrans) computeLoopWrites() {
 	for _, l := range t.loops {
+		hasCall := false
 		for b := range l.body {
 			for _, in := range b.Instrs {
 				t.instrWrites(in, l)
+				if _, ok := in.(*ssa.Call); ok {
+					hasCall = true
+				}
+			}
+		}
+		if hasCall && t.ct != nil {
+			// ghost statements of this function attached to call sites may run inside the loop
+			for _, g := range t.ct.Ghost {
+				if !strings.HasPrefix(g.Arg, "before call ") && !strings.HasPrefix(g.Arg, "after call ") {
+					continue
+				}
+				if strings.HasPrefix(g.Text, "assert ") || strings.HasPrefix(g.Text, "assume ") {
+					continue
+				}
+				i := strings.Index(g.Text, "=")
+				if i <= 0 {
+					l.all = true
+					continue
+				}
+				lhs := strings.TrimSpace(g.Text[:i])
+				pk := t.fn.Pkg.Pkg.Path()
+				if gs, ok := t.eng.specs.Ghosts[pk+"."+lhs]; ok {
+					t.w(l, "GG."+pk+"."+lhs, gs)
+				} else {
+					l.all = true // ghost field of some object: havoc conservatively
+				}
 			}
 		}
 	}
